@@ -46,7 +46,7 @@ def shards(tier):
 def required_counters(tier):
     return {'judged:exact-pixel': 5000, 'judged:exact-range': 5000, 'judged:full-pixel': 500, 'judged:empty-pixel': 500, 'judged:mask-sum': 50,
             'judged:convergence': 200, 'lane:circle-mask': 10, 'lane:ellipse-mask': 10, 'lane:circle-window': 10, 'lane:ellipse-window': 10,
-            'lane:nice-circle': 5, 'lane:nice-ellipse': 5, 'result-edited-then-requested-again': 20}
+            'lane:nice-circle': 5, 'lane:nice-ellipse': 5, 'big-circle-rows': 2000, 'result-edited-then-requested-again': 20}
 
 
 # ---------------------------------------------------------------------------
@@ -174,6 +174,10 @@ def generate(rng, tier, shard, nshards):
     for i in range(n):
         r = rng.random()
         rs = rng.randrange(2 ** 31)
+        if i % 200 == 57:
+            # a disk whose mask is more than a thousand rows tall (judged in bulk: interior 1, exterior 0, outline pixels one by one)
+            yield {'lane': 'big-circle', 'r': rng.uniform(300, 1000), 'cx': rng.uniform(-50, 50), 'cy': rng.uniform(-50, 50), 'rs': rs}
+            continue
         if r < 0.14:
             yield {'lane': 'circle-mask', 'r': gen.logu(rng, 0.05, 30), 'cx': rng.uniform(-50, 50), 'cy': rng.uniform(-50, 50), 'rs': rs}
         elif r < 0.30:
@@ -274,10 +278,62 @@ def _far_outside(x0, y0, x1, y1, margin_fn, band):
     return True
 
 
+def run_big_circle(case, obs):
+    from regions import PixCoord, CirclePixelRegion
+    r, cx, cy = case['r'], case['cx'], case['cy']
+    m = CirclePixelRegion(PixCoord(cx, cy), r).to_mask(mode='exact')
+    bb = m.bbox
+    data = np.asarray(m.data, dtype=float)
+    xe = np.arange(bb.ixmin, bb.ixmax + 1) - 0.5 - cx
+    ye = np.arange(bb.iymin, bb.iymax + 1) - 0.5 - cy
+    x0, x1, y0, y1 = xe[:-1][None, :], xe[1:][None, :], ye[:-1][:, None], ye[1:][:, None]
+    far = np.hypot(np.maximum(np.abs(x0), np.abs(x1)), np.maximum(np.abs(y0), np.abs(y1)))          # farthest corner
+    nx_ = np.where((x0 <= 0) & (x1 >= 0), 0.0, np.minimum(np.abs(x0), np.abs(x1)))
+    ny_ = np.where((y0 <= 0) & (y1 >= 0), 0.0, np.minimum(np.abs(y0), np.abs(y1)))
+    near = np.hypot(nx_, ny_)                                                                        # nearest point of the pixel
+    band = 1e-9 * r
+    inside, outside = far < r - band, near > r + band
+    obs.count('big-circle-rows', data.shape[0])
+    bad_in = inside & (np.abs(data - 1.0) > 1e-12)
+    bad_out = outside & (data != 0.0)
+    if bad_in.any():
+        j, i = [int(v[0]) for v in np.nonzero(bad_in)]
+        obs.violation('fully-covered-pixel-not-1', f'circle r={r!r} centre=({cx!r},{cy!r}): pixel row {j} col {i} of the {data.shape} mask lies inside the disk '
+                      f'but has exact value {data[j, i]!r}; {int(bad_in.sum())} such pixels')
+    else:
+        obs.ok(int(inside.sum()), 'full-pixel')
+    if bad_out.any():
+        j, i = [int(v[0]) for v in np.nonzero(bad_out)]
+        obs.violation('uncovered-pixel-not-0', f'circle r={r!r}: pixel row {j} col {i} lies outside the disk but has exact value {data[j, i]!r}; {int(bad_out.sum())} such pixels')
+    else:
+        obs.ok(int(outside.sum()), 'empty-pixel')
+    edge = np.argwhere(~inside & ~outside)
+    tot = float(inside.sum())
+    nbad = 0
+    for j, i in edge:
+        exp = circle_pixel_area(xe[i], ye[j], xe[i + 1], ye[j + 1], r)
+        tot += exp
+        v = data[j, i]
+        if not (math.isfinite(v) and abs(v - exp) <= 1e-8):
+            nbad += 1
+            if nbad == 1:
+                obs.violation('exact-value-wrong', f'circle r={r!r} centre=({cx!r},{cy!r}): pixel [{xe[i]!r},{xe[i + 1]!r}]x[{ye[j]!r},{ye[j + 1]!r}] exact value {v!r}, '
+                              f'true overlap fraction {exp!r}')
+        else:
+            obs.ok(1, 'exact-pixel')
+    obs.check(abs(tot - math.pi * r * r) <= len(edge) * 1e-9 + 1e-6, 'exact-mask-box-does-not-hold-the-shape',
+              f'circle r={r!r}: the part of the disk inside the mask box {bb!r} has area {tot!r}, the disk {math.pi * r * r!r}', 'mask-box')
+    s = float(data.sum())
+    obs.check(abs(s - math.pi * r * r) <= len(edge) * 1e-8 + 1e-6, 'exact-mask-sum-not-analytic-area',
+              f'circle r={r!r}: exact mask sums to {s!r}, analytic area {math.pi * r * r!r}', 'mask-sum')
+
+
 def run_case(case, obs):
     import astropy.units as u
     from regions import PixCoord, CirclePixelRegion, EllipsePixelRegion
     lane = case['lane']
+    if lane == 'big-circle':
+        return run_big_circle(case, obs)
     if lane in ('circle-mask', 'nice-circle'):
         r, cx, cy = case['r'], case['cx'], case['cy']
         reg = CirclePixelRegion(PixCoord(cx, cy), r)
@@ -294,6 +350,8 @@ def run_case(case, obs):
         nb, tot = judge_pixels(obs, np.asarray(m.data), xe, ye, lambda a, b, c, d: circle_pixel_area(a, b, c, d, r),
                                lambda x, y: r - math.hypot(x, y), f'circle r={r!r} centre=({cx!r},{cy!r})')
         s = float(np.sum(m.data))
+        obs.check(abs(tot - math.pi * r * r) <= (nb + 1) * 1e-8, 'exact-mask-box-does-not-hold-the-shape',
+                  f'circle r={r!r} centre=({cx!r},{cy!r}): the part of the disk inside the mask box {bb!r} has area {tot!r}, the disk {math.pi * r * r!r}', 'mask-box')
         obs.check(abs(s - math.pi * r * r) <= (nb + 1) * 1e-8, 'exact-mask-sum-not-analytic-area',
                   f'circle r={r!r}: exact mask sums to {s!r}, analytic area {math.pi * r * r!r}', 'mask-sum')
         return
@@ -319,6 +377,10 @@ def run_case(case, obs):
                                lambda x, y: float(geom.margin_ellipse(0.0, 0.0, 2 * a, 2 * b, th, np.float64(x), np.float64(y))),
                                f'ellipse a={a!r} b={b!r} theta={th!r} centre=({cx!r},{cy!r})', ellipse=(a, b, th), fast_exact_one=False)
         s = float(np.sum(m.data))
+        # independent of the kernel: the box of the mask holds the whole ellipse (oracle area inside the box = pi a b)
+        obs.check(abs(tot - math.pi * a * b) <= (nb + 1) * 1e-8, 'exact-mask-box-does-not-hold-the-shape',
+                  f'ellipse a={a!r} b={b!r} theta={th!r} centre=({cx!r},{cy!r}): the part of the ellipse inside the mask box {bb!r} has area {tot!r}, '
+                  f'the ellipse {math.pi * a * b!r}', 'mask-box')
         ok = abs(s - math.pi * a * b) <= (nb + 1) * 1e-8
         if not ok and lane == 'nice-ellipse' and any(f16_degenerate(xe[i], ye[j], xe[i + 1], ye[j + 1], a, b, th)
                                                      for i in range(len(xe) - 1) for j in range(len(ye) - 1)):
